@@ -421,9 +421,9 @@ structure LinkState where
   tab : SymTab
   next : Nat
 
-/-- `ElfLinker::load_elf`: map the object, export its symbols, load the DT_NEEDED objects that are
-    not loaded yet (depth first, each at the next library base), then relocate this object. -/
-def loadElf (files : List ElfDesc) (big : Bool) : Nat → String → Nat → LinkState → Res LinkState
+/-- `ElfLinker::load_elf_and_dependencies`: map the object, export its symbols, then load the
+    DT_NEEDED objects that are not loaded yet (depth first, each at the next library base). -/
+def loadElf (files : List ElfDesc) : Nat → String → Nat → LinkState → Res LinkState
   | 0, _, _, _ => .err .other
   | fuel + 1, name, B, st =>
     match files.find? (fun d => d.name == name) with
@@ -440,18 +440,21 @@ def loadElf (files : List ElfDesc) (big : Bool) : Nat → String → Nat → Lin
         let st1 : LinkState :=
           { loaded := st.loaded ++ [(d, B)], mem := overlay img st.mem,
             tab := st.tab ++ exportedTab d B, next := st.next }
-        let deps := d.needed.foldl (fun (acc : Res LinkState) n => acc.bind (fun s =>
+        d.needed.foldl (fun (acc : Res LinkState) n => acc.bind (fun s =>
             if s.loaded.any (fun x => x.1.name == n) then .ok s
-            else loadElf files big fuel n (s.next + LIB_BASE_STEP) { s with next := s.next + LIB_BASE_STEP })) (.ok st1)
-        deps.bind (fun s => (relocs d B big s.tab s.mem).map (fun m => { s with mem := m }))
+            else loadElf files fuel n (s.next + LIB_BASE_STEP) { s with next := s.next + LIB_BASE_STEP })) (.ok st1)
 
-/-- `ElfLinker::new(main)` with relocations enabled; the memory's endianness is the main file's. -/
+/-- `ElfLinker::new(main)` with relocations enabled: everything is loaded first, then every loaded
+    object is relocated (in load order) against the complete symbol table; the memory's endianness
+    is the main file's. -/
 def link (files : List ElfDesc) (main : String) : Res LinkState :=
   match files.find? (fun d => d.name == main) with
   | none => .err .other
   | some d0 =>
-    loadElf files (d0.enc == .msb) (files.length + 1) main 0
-      { loaded := [], mem := fun _ => none, tab := [], next := DEFAULT_LIB_BASE }
+    (loadElf files (files.length + 1) main 0
+      { loaded := [], mem := fun _ => none, tab := [], next := DEFAULT_LIB_BASE }).bind fun st =>
+    (st.loaded.foldl (fun (acc : Res Img) x => acc.bind (fun m => relocs x.1 x.2 (d0.enc == .msb) st.tab m)) (.ok st.mem)).map
+      (fun m => { st with mem := m })
 
 /-! ### the definition the property states for linked objects
 
